@@ -1,4 +1,4 @@
-import Nv.Model.C09
+import Nv.Props.C09
 import Nv.Gen.C09
 /-! C09 — obligations on the definitions regenerated from /repo's current source. -/
 namespace Nv.C09
@@ -10,14 +10,38 @@ theorem tie_cfg_proved : Proved cfg := by decide
 theorem tie_facts : facts = Facts.expected := by decide
 
 /-! the regenerated kernels are the functions the model is about -/
-theorem tie_big_offset (s : BitVec 32) : bigU32_iterOffset s = bigOffset cfg false s := rfl
-theorem tie_big_roffset (s : BitVec 32) : bigU32_rIterOffset s = bigOffset cfg true s := rfl
-theorem tie_tip_offset (s : BitVec 32) : u32BitTip_iterOffset s = s * BitVec.ofNat 32 cfg.c1k := rfl
-theorem tie_tip_roffset (s : BitVec 32) : u32BitTip_rIterOffset s = s * BitVec.ofNat 32 cfg.c1k := rfl
+theorem tie_big_offset (s : BitVec 32) : bigU32_iterOffset s = bigOffset cfg false s := by
+  first | rfl | simp [bigU32_iterOffset, bigOffset, offsetOf, cfg, BitVec.mul_comm]
+theorem tie_big_roffset (s : BitVec 32) : bigU32_rIterOffset s = bigOffset cfg true s := by
+  first | rfl | simp [bigU32_rIterOffset, bigOffset, offsetOf, cfg, BitVec.mul_comm]
+theorem tie_tip_offset (s : BitVec 32) : u32BitTip_iterOffset s = s * BitVec.ofNat 32 cfg.c1k := by
+  first | rfl | simp [u32BitTip_iterOffset, cfg, BitVec.mul_comm]
+theorem tie_tip_roffset (s : BitVec 32) : u32BitTip_rIterOffset s = s * BitVec.ofNat 32 cfg.c1k := by
+  first | rfl | simp [u32BitTip_rIterOffset, cfg, BitVec.mul_comm]
 theorem tie_selI64_new (v : BitVec 64) : newBigU32FromI64_sel v = selI64 v := rfl
 theorem tie_selI64_set (v : BitVec 64) : bigU32SetI64_sel v = selI64 v := rfl
 theorem tie_selU32_new (u : BitVec 32) : newU32BitTipFromU32_sel u = selU32 u := rfl
 theorem tie_selU32_set (u : BitVec 32) : u32BitTipSetU32_sel u = selU32 u := rfl
 theorem tie_maxTipStart : Nv.Gen.C09.maxTipStart = Nv.C09.maxTipStart := rfl
+
+/-! property theorems stated directly on the regenerated kernels -/
+
+/-- regenerated arithmetic of `NewBigU32FromI64`: accepted exactly on the documented range, start = v/1024, bit = v%1024 -/
+theorem tie_newBigU32FromI64_sel_spec (v : BitVec 64) :
+    (0 ≤ v.toInt ∧ v.toInt < 4398046510080 →
+      (newBigU32FromI64_sel v).1 = true ∧ (newBigU32FromI64_sel v).2.1.toNat = v.toInt.toNat / 1024 ∧
+      (newBigU32FromI64_sel v).2.2.toInt = ((v.toInt.toNat % 1024 : Nat) : Int)) ∧
+    (¬(0 ≤ v.toInt ∧ v.toInt < 4398046510080) → (newBigU32FromI64_sel v).1 = false) := selI64_spec v
+
+/-- regenerated block base of `BigU32.IterAsI64`: `Start·1024` without wrap-around (false while the product is `uint32`) -/
+theorem tie_big_offset_exact (s : BitVec 32) : (bigU32_iterOffset s).toNat = s.toNat * 1024 := by
+  have := s.isLt
+  simp only [bigU32_iterOffset, BitVec.toNat_mul, BitVec.toNat_setWidth, BitVec.toNat_ofNat]
+  omega
+
+theorem tie_big_roffset_exact (s : BitVec 32) : (bigU32_rIterOffset s).toNat = s.toNat * 1024 := by
+  have := s.isLt
+  simp only [bigU32_rIterOffset, BitVec.toNat_mul, BitVec.toNat_setWidth, BitVec.toNat_ofNat]
+  omega
 
 end Nv.C09
